@@ -54,3 +54,13 @@ def L(a=None, b=None, n: int = 2, tag: str = "L"):
     evlog.emit("start", node=tag, term=term)
     evlog.emit("end", node=tag, term=term)
     return [f"{term}[{i}]" for i in range(n)]
+
+
+@python.define(outputs={"out": str})
+def FT(a: str = "", b: str = "", tag: str = "FT") -> str:
+    """typed variant of F (str inputs, str output)"""
+    args = {k: v for k, v in (("a", a), ("b", b)) if v}
+    term = tag + "(" + ",".join(k + "=" + s(v) for k, v in args.items()) + ")"
+    evlog.emit("start", node=tag, term=term)
+    evlog.emit("end", node=tag, term=term)
+    return term
